@@ -21,11 +21,16 @@
       see [parse_float_lemire_definite_correct] in props/C01.v).  Outside its hypotheses: truncated with
       w = 0 or w = u64::MAX (KNOWN_FINDINGS F2a/F2b, API-only).
     The per-entry table facts are computed on the table dumped from the compiled crate on every run
-    ([lfmt_ok_F32/F64], [bell_ok_F32/F64] are vm_compute over all 651 + 76 entries). *)
+    ([lfmt_ok_F32/F64], [bell_ok_F32/F64] are vm_compute over all 651 + 76 entries).
+    SOURCE TIE (tools/rs2coq): the functions named below are ALSO regenerated from the Rust source on every
+    run by a syn-based translator (coq/gen/Src.v) and proved EQUAL to the hand-written model functions the
+    theorems above are about ([rs_*_eq], proofs/SrcEquiv*.v) - for all inputs and both build modes; a change to
+    that Rust code changes the generated file and breaks these equalities.
+    Here: lemire, compute_float, compute_error, compute_error_scaled, compute_product_approx, full_multiplication, power (lemire.rs); bellerophon, error_is_accurate, normalize, mul, get_small, get_large, get_small_int (bellerophon.rs). *)
 
 From Coq Require Import ZArith QArith List Bool Reals.
 From ML Require Import base.RustSem model.Fmt model.Num model.Number model.Rounding model.Bellerophon model.Lemire spec.Decimal spec.Round spec.RoundFacts spec.RneZ spec.RneBridge
-  gen.Consts gen.Tables gen.BTables proofs.TableFacts proofs.BellFacts0 proofs.BellFacts1 proofs.BellFacts2 proofs.BellFacts3 proofs.BellFacts4 proofs.BellFacts5 proofs.LemireFacts0 proofs.LemireFacts1 proofs.LemireFacts5.
+  gen.Consts gen.Tables gen.BTables proofs.TableFacts proofs.BellFacts0 proofs.BellFacts1 proofs.BellFacts2 proofs.BellFacts3 proofs.BellFacts4 proofs.BellFacts5 proofs.LemireFacts0 proofs.LemireFacts1 proofs.LemireFacts5 gen.Src proofs.SrcEquiv proofs.SrcEquiv2.
 
 Open Scope Z_scope.
 
@@ -191,6 +196,70 @@ Theorem C11_bell_F1_declined :
          end = true.
 Proof. exact bell_F1_declined. Qed.
 
+Theorem C11_rs_lemire_eq_std :
+  forall (f : format) (b : build) (n : number),
+         f = F32 \/ f = F64 -> u64_ok (nmant n) -> rs_lemire TABLES f b n = lemire TABLES f b n.
+Proof. exact rs_lemire_eq_std. Qed.
+
+Theorem C11_rs_compute_float_eq_std :
+  forall (f : format) (b : build) (q w : Z),
+         f = F32 \/ f = F64 -> u64_ok w -> rs_compute_float TABLES f b q w = compute_float TABLES f b q w.
+Proof. exact rs_compute_float_eq_std. Qed.
+
+Theorem C11_rs_compute_error_eq :
+  forall (T : tables) (f : format) (b : build) (q w : Z),
+         tables_ok T -> fmt_ok f -> u64_ok w -> rs_compute_error T f b q w = compute_error T f b q w.
+Proof. exact rs_compute_error_eq. Qed.
+
+Theorem C11_rs_compute_error_scaled_eq :
+  forall (f : format) (b : build) (q w lz : Z),
+         u64_ok w -> rs_compute_error_scaled f b q w lz = compute_error_scaled f b q w lz.
+Proof. exact rs_compute_error_scaled_eq. Qed.
+
+Theorem C11_rs_compute_product_approx_eq :
+  forall (T : tables) (b : build) (q w p : Z),
+         tables_ok T -> u64_ok w -> rs_compute_product_approx T b q w p = compute_product_approx T b q w p.
+Proof. exact rs_compute_product_approx_eq. Qed.
+
+Theorem C11_rs_full_multiplication_eq :
+  forall (b : build) (x y : Z),
+         u64_ok x -> u64_ok y -> rs_full_multiplication b x y = Ok (full_multiplication x y).
+Proof. exact rs_full_multiplication_eq. Qed.
+
+Theorem C11_rs_power_eq :
+  forall (b : build) (q : Z), rs_power b q = power b q.
+Proof. exact rs_power_eq. Qed.
+
+Theorem C11_rs_bellerophon_eq_std :
+  forall (f : format) (b : build) (n : number),
+         f = F32 \/ f = F64 -> u64_ok (nmant n) -> rs_bellerophon BTABLES f b n = bellerophon BTABLES f b n.
+Proof. exact rs_bellerophon_eq_std. Qed.
+
+Theorem C11_rs_error_is_accurate_eq :
+  forall (f : format) (b : build) (errors : Z) (fp : extfloat),
+         fmt_ok f -> u32_ok errors -> rs_error_is_accurate f b errors fp = error_is_accurate f b errors fp.
+Proof. exact rs_error_is_accurate_eq. Qed.
+
+Theorem C11_rs_normalize_eq :
+  forall (b : build) (fp : extfloat), u64_ok (mant fp) -> rs_normalize b fp = bnormalize b fp.
+Proof. exact rs_normalize_eq. Qed.
+
+Theorem C11_rs_mul_eq :
+  forall (b : build) (x y : extfloat), rs_mul b x y = bmul b x y.
+Proof. exact rs_mul_eq. Qed.
+
+Theorem C11_rs_get_small_eq :
+  forall (BT : btables) (b : build) (i : Z), rs_get_small BT b i = get_small BT b i.
+Proof. exact rs_get_small_eq. Qed.
+
+Theorem C11_rs_get_large_eq :
+  forall (BT : btables) (b : build) (i : Z), btables_ok BT -> rs_get_large BT b i = get_large BT b i.
+Proof. exact rs_get_large_eq. Qed.
+
+Theorem C11_rs_get_small_int_eq :
+  forall (BT : btables) (b : build) (i : Z), rs_get_small_int BT b i = get_small_int BT i.
+Proof. exact rs_get_small_int_eq. Qed.
+
 
 Print Assumptions C11_lfmt_ok_F32.
 Print Assumptions C11_lfmt_ok_F64.
@@ -209,3 +278,17 @@ Print Assumptions C11_accurate_band.
 Print Assumptions C11_stage2_bound.
 Print Assumptions C11_small_truncated_corner.
 Print Assumptions C11_bell_F1_declined.
+Print Assumptions C11_rs_lemire_eq_std.
+Print Assumptions C11_rs_compute_float_eq_std.
+Print Assumptions C11_rs_compute_error_eq.
+Print Assumptions C11_rs_compute_error_scaled_eq.
+Print Assumptions C11_rs_compute_product_approx_eq.
+Print Assumptions C11_rs_full_multiplication_eq.
+Print Assumptions C11_rs_power_eq.
+Print Assumptions C11_rs_bellerophon_eq_std.
+Print Assumptions C11_rs_error_is_accurate_eq.
+Print Assumptions C11_rs_normalize_eq.
+Print Assumptions C11_rs_mul_eq.
+Print Assumptions C11_rs_get_small_eq.
+Print Assumptions C11_rs_get_large_eq.
+Print Assumptions C11_rs_get_small_int_eq.
